@@ -415,7 +415,70 @@ def run(ctx, tier):
                     'the result differs from the core\'s' % h, loc=b.loc(0), ordinal=o))
     if n_pw < 20:
         r_cb.violations.append(Violation('C19', 'C19.callbacks', 'oxmpl-py', 'floor', 'only %d planner wrapper functions found (floor 20)' % n_pw))
-    return [r_args, r_disp, r_loss, r_err, r_seed, r_sib, r_fwd, r_cb]
+    return [r_args, r_disp, r_loss, r_err, r_seed, r_sib, r_fwd, r_cb, _one_core_object(ctx)]
+
+
+def _one_core_object(ctx):
+    """C19.object - a planner wrapper holds ONE core planner for its whole life: the field that holds the core object is
+    written by the constructor only.  The core keeps state across calls (the seeded generator continues, a roadmap is
+    reused); a wrapper that rebuilds or swaps its core object in `setup` / `solve` restarts that state and no longer returns
+    what the core returns for the same call sequence."""
+    r = RuleResult('C19.object', 'the core planner object a wrapper holds is created by its constructor and never replaced')
+    n = 0
+    for crate in [c for c in (ctx.py, ctx.js) if c is not None]:
+        # fields whose type is (an enum of the binding crate over) a core planner
+        def holds_core(ty, depth=0):
+            if 'oxmpl::geometric::' in ty:
+                return True
+            adt = crate.adts.get(ty)
+            if adt is None or depth > 1:
+                return False
+            return any(holds_core(f['ty'], depth + 1) for v in adt['variants'] for f in v['fields'])
+        for aname, adt in sorted(crate.adts.items()):
+            if adt.get('is_enum') or len(adt['variants']) != 1:
+                continue
+            core_fields = [i for i, f in enumerate(adt['variants'][0]['fields']) if holds_core(f['ty'])]
+            if not core_fields:
+                continue
+            fnames = {i: adt['variants'][0]['fields'][i]['name'] for i in core_fields}
+            n += 1
+            bad = []
+            for b in user_bodies(crate):
+                if b.j.get('impl_adt') != aname and not b.path.startswith(aname + '::'):
+                    continue
+                fn = ctx.fn(b)
+                selfs = {1} if b.arg_count >= 1 and aname.rsplit('::', 1)[1] in b.local_ty(1) else set()
+                if not selfs:
+                    continue
+                for bi, blk in enumerate(b.blocks):
+                    if blk['cleanup']:
+                        continue
+                    for si, st in enumerate(blk['stmts']):
+                        if st['k'] != 'assign':
+                            continue
+                        pl = st['place']
+                        root = pl['l']
+                        br = fn.borrow_root(root) if root not in selfs else None
+                        proj = [e for e in pl['p'] if e != 'deref']
+                        if (root in selfs or (br is not None and br[0] in selfs)) and proj and isinstance(proj[0], dict) and proj[0].get('f') in fnames \
+                                and len(proj) == 1:
+                            bad.append((b, bi, si, 'assigns'))
+                    t = blk['term']
+                    if t['k'] == 'call' and (t['func'].get('path') or '').startswith(('std::mem::replace', 'std::mem::swap', 'std::mem::take')):
+                        for j in range(len(t['args'])):
+                            ts = fn.arg_terms(t, j, bi)
+                            if any(q[0] == 'field' and q[2] in fnames.values() and all(m[0] == 'param' and m[1] == 1 for m in q[1]) for q in ts):
+                                bad.append((b, bi, None, t['func'].get('path')))
+            r.inst('%s: field(s) %s are written by the constructor only' % (aname, sorted(fnames.values())), ok=not bad, nontrivial=True)
+            for o, (b, bi, si, how) in enumerate(bad):
+                r.violations.append(Violation(
+                    'C19', 'C19.object', b.path, 'replaced',
+                    'the wrapper %s its core planner object outside the constructor: the state the core keeps between calls (the seeded '
+                    'generator, the tree / roadmap) is restarted, so the same call sequence no longer returns what the core returns' % how,
+                    loc=b.loc(bi, si), ordinal=o))
+    if n < 4:
+        r.violations.append(Violation('C19', 'C19.object', 'oxmpl-py', 'floor', 'only %d planner wrapper types found (floor 4)' % n))
+    return r
 
 
 def _lossless(b):
